@@ -266,7 +266,14 @@ class Case:
         self.prek = "".join("f" if t in FLT_T else "i" for t in pre)
 
     def name(self):
-        return "%s:pre=%s:ret=%s" % (self.sh["sig"], ",".join(self.pre) or "-", self.ret)
+        runs = []
+        for t in self.pre:              # run-length encoded: 6*i64,i8
+            if runs and runs[-1][0] == t:
+                runs[-1][1] += 1
+            else:
+                runs.append([t, 1])
+        pre = ",".join(("%d*%s" % (n, t)) if n > 1 else t for t, n in runs)
+        return "%s:pre=%s:ret=%s" % (self.sh["sig"], pre or "-", self.ret)
 
     def dirs(self):
         return DIRS if self.rsh else ("arg", "keep", "cbarg", "cbkeep")
